@@ -534,7 +534,10 @@ def expected(st, d):
         if any(c[0] == 'limit' for c in calls): out.append(('LIMIT',))
         if any(c[0] == 'offset' for c in calls): out.append(('OFFSET',))
         for c in calls:
-            if c[0] == 'lock' and d != 'sqlite': out.append(('LOCK', {'Update': 'UPDATE', 'NoKeyUpdate': 'NO KEY UPDATE', 'Share': 'SHARE', 'KeyShare': 'KEY SHARE'}[c[1]]))
+            LK = {'Update': 'UPDATE', 'NoKeyUpdate': 'NO KEY UPDATE', 'Share': 'SHARE', 'KeyShare': 'KEY SHARE'}
+            if c[0] == 'lock' and d != 'sqlite': out.append(('LOCK', LK[c[1]]))
+            elif c[0] == 'lock_with_behavior' and d != 'sqlite': out.append(('LOCK', LK[c[1]] + {'Nowait': ' NOWAIT', 'SkipLocked': ' SKIP LOCKED'}[c[2]]))
+            elif c[0] == 'lock_with_tables' and d != 'sqlite': out.append(('LOCK', LK[c[1]] + ' OF ' + ' , '.join(t[-1] for t in c[2])))
         return out
     if k == 'insert':
         verb = 'REPLACE' if any(c[0] == 'replace' for c in calls) and d != 'postgres' else 'INSERT'
